@@ -89,6 +89,21 @@ func (x *exec) callCommon(st *State, fr *Frame, ins ssa.Instruction, c *ssa.Call
 	}
 	// call-site assertions of the unit's contract
 	x.callSiteAsserts(st, fr, ins, ci, full)
+	// "opt stopafter = callee#n": only the prefix of the function up to that call is explored (its obligations are
+	// sound for every execution; what follows the call is not verified in this unit)
+	if fr.isUnit && x.unit != nil && x.unit.Spec != nil {
+		if sa := x.unit.Spec.Opts["stopafter"]; sa != "" {
+			name, ord := sa, 1
+			if i := strings.LastIndex(sa, "#"); i >= 0 {
+				name = strings.TrimSpace(sa[:i])
+				fmt.Sscanf(sa[i+1:], "%d", &ord)
+			}
+			if x.resolveCalleeName(x.unit.Spec.Pkg, name) == ci.key && x.callOrdinal(ins, ci.key) == ord {
+				e.note("%s: exploration stops after %s (prefix verification)", x.unit.Name, sa)
+				return
+			}
+		}
+	}
 	// contract?
 	if fs := e.w.Contracts[ci.key]; fs != nil && !(fs.Inline && ci.fn != nil && ci.fn.Blocks != nil) {
 		if d := fs.Opts["dispatch"]; d != "" && c.IsInvoke() {
